@@ -13,6 +13,9 @@ pub enum Guard {
     /// deliver only when the engine is idle from the GUI's point of view: the stdin thread waits for input,
     /// nothing is queued, and every `go` that is due (accepted; not an unstopped `go infinite`) has printed its bestmove
     WhenAnswered,
+    /// deliver once the engine has printed at least this many `info depth` lines (a user who acts after seeing output);
+    /// while the GUI waits and the command loop is idle, the searching thread is the only runnable one
+    AfterInfoLines(usize),
 }
 
 #[derive(Clone, Debug)]
@@ -202,6 +205,7 @@ pub fn run(script: &[Line], prefix: &[usize], horizon: usize) -> Exec {
                 match script[next_line].guard {
                     Guard::Now => true,
                     Guard::WhenAnswered => main_idle && all_due_answered(&log),
+                    Guard::AfterInfoLines(n) => main_idle && log.iter().filter(|e| matches!(e, Ev::Out(_, t) if t.starts_with("info depth"))).count() >= n,
                 }
             };
             if ok {
